@@ -672,3 +672,23 @@ Definition symbolize_mode (mode : string) : outcome (Z * string) :=
   let '(early, st) := sym_opts (split_colon (to_lower mode)) sym_init in
   if early then Ok (ss_msgs st, "none")      (* returned before any demangling *)
   else bind (demangler_mode_to_options (ss_demangle st)) (fun label => Ok (ss_msgs st, label)).
+
+(* ------------------------------------------------------------------ graph.TrimTree's precondition
+   graph.go:469 TrimTree panics ("TrimTree only works on trees") on a node with two in-edges.  Two places
+   of internal/report decide independently whether call_tree is honoured for an output format:
+   the guard of the g.TrimTree calls in newTrimmedGraph ([sitef]) and the CallTree field of the
+   graph.Options newGraph hands to graph.New ([buildf]); both sets are regenerated from the source
+   (Gen/Gen_C09CallTree.v).  A graph built as a call tree keys its nodes by path: one in-edge at most. *)
+Definition in_formats (fmt : string) (l : list string) : bool := existsb (String.eqb fmt) l.
+Definition incl_b (a b : list string) : bool := forallb (fun x => in_formats x b) a.
+
+Definition built_as_tree (buildf : list string) (call_tree : bool) (fmt : string) : bool :=
+  call_tree && in_formats fmt buildf.
+
+(* one TrimTree call site: reached when its guard holds and trimming dropped a node *)
+Definition trim_site_outcome (buildf sitef : list string) (call_tree : bool) (fmt : string)
+           (dropped two_callers : bool) : outcome unit :=
+  if call_tree && in_formats fmt sitef && dropped then
+    if built_as_tree buildf call_tree fmt then Ok tt
+    else if two_callers then Panic "TrimTree only works on trees" else Ok tt
+  else Ok tt.
